@@ -150,6 +150,21 @@ pub fn c10_decode(args: &[String], seed: u64) -> Vec<String> {
             if let Some(e) = check(&g, &mut n) { return vec![e]; }
         } }
     }
+    // every SD2 length byte 0..=255 (also beyond what the encoder emits), with matching / differing repeat, bodies of
+    // every length around the completeness boundaries
+    for le in 0u16..=255 {
+        let le = le as u8;
+        for ler in [le, le.wrapping_add(1)] {
+            for sd in [0x68u8, 0x10] {
+                let full = usize::from(le) + 6;
+                for blen in (0usize..=12).chain([full.saturating_sub(5), full.saturating_sub(4), full.saturating_sub(3), full]) {
+                    let mut f = vec![0x68, le, ler, sd];
+                    for i in 0..blen { f.push(if i == 2 { 0x08 } else { (i as u8).wrapping_mul(37) ^ le }); }
+                    if let Some(e) = check(&f, &mut n) { return vec![e]; }
+                }
+            }
+        }
+    }
     for _ in 0..200000 {
         let len = (lcg(&mut s) % 24) as usize;
         let mut b: Vec<u8> = (0..len).map(|_| lcg(&mut s) as u8).collect();
